@@ -11,10 +11,10 @@
  *                             (snoopy_outputregistry_dispatch with CFG->output = name; snoopy_configuration_get is provided here)
  *   dispatchs out <hexname> -> the same with CFG->output at one fixed address whose content changes from case to case
  *   exec <chain e1,..> <format d1,..> <hex output> -> ok <implementations run by snoopy_action_log_syscall_exec(), in order | []>
- *                             (filter_chain "e1;e2:a;...", message_format "m:%{d1}%{d2:a}...", output; the snapshot's filtering.c, message.c,
+ *                             (filter_chain "e1;e2:a;...", message_format "m:%{d1}%{d2:noop}...", output; the snapshot's filtering.c, message.c,
  *                              log-syscall-exec.c, log-message-dispatch.c; filters answer PASS)
  *   threads ds <n=sym,...> -> ok <0|some> <first mismatch | ->   one thread per name formats %{n:a-n} 20000 times
- *   chain flt <e1,e2,...>  -> ok <implementations run by snoopy_filtering_check_chain("e1;e2:a;e3;..."), in order | []>
+ *   chain flt <e1,e2,...>  -> ok <implementations run by snoopy_filtering_check_chain("e1;e2:noop;e3;..."), in order | []>
  *   byid   <k> <int>       -> ok <called:SYM|unknown|fault> <getName or ~>
  *   count  <k>             -> ok <getCount>
  *   gid <hexlist> <hexname> / gcount <hexlist> / gname <hexlist> <i> / gidexist <hexlist> <i> / gnameexist <hexlist> <hexname>
@@ -43,12 +43,13 @@ extern __thread const char *verif_tl_last;             /* per thread: the stub t
 extern __thread char verif_tl_arg[64];
 
 static void join_elems(char *dst, size_t cap, const char *list, const char *open, const char *sep, const char *close) {
-    /* "e1,e2,e3" -> open e1 close sep open e2 ":a" close ...   (an argument on every second element) */
+    /* "e1,e2,e3" -> open e1 close sep open e2 ":noop" close ...   (an argument on every second element - itself a registered name of
+     * every registry, so that a splitter that loses the name runs something; the element "-" stands for the empty name) */
     size_t len = 0; dst[0] = 0;
     if (!strcmp(list, "[]")) return;
     char *dup = strdup(list), *save = 0; int k = 0;
     for (char *tok = strtok_r(dup, ",", &save); tok; tok = strtok_r(0, ",", &save), k++)
-        len += (size_t)snprintf(dst + len, cap - len, "%s%s%s%s%s", k ? sep : "", open, tok, (k & 1) ? ":a" : "", close);
+        len += (size_t)snprintf(dst + len, cap - len, "%s%s%s%s%s", k ? sep : "", open, strcmp(tok, "-") ? tok : "", (k & 1) ? ":noop" : "", close);
     free(dup);
 }
 
@@ -142,13 +143,8 @@ static void handle(int nf, char **f, FILE *o) {
         fprintf(o, "ok\t%s\t%s", bad ? "some" : "0", first);
     } else if (!strcmp(f[0], "chain") && nf >= 3) {
         /* snoopy_filtering_check_chain over "e1:a;e2;e3:a;..." with every (stub) filter answering PASS */
-        char chain[4000]; size_t len = 0; chain[0] = 0;
-        if (strcmp(f[2], "[]")) {
-            char *dup = strdup(f[2]), *save = 0; int k = 0;
-            for (char *tok = strtok_r(dup, ",", &save); tok; tok = strtok_r(0, ",", &save), k++)
-                len += (size_t)snprintf(chain + len, sizeof chain - len, "%s%s%s", k ? ";" : "", tok, (k & 1) ? ":a" : "");
-            free(dup);
-        }
+        char chain[4000];
+        join_elems(chain, sizeof chain, f[2], "", ";", "");
         verif_stub_ret = SNOOPY_FILTER_PASS;
         (void)snoopy_filtering_check_chain(chain);
         verif_stub_ret = 0;
